@@ -537,6 +537,10 @@ pub enum Verdict {
     Reject,
     /// accepts iff the value equals this one
     AcceptIfEq(Value),
+    /// treats the value as a token of `proto` and parses it at `layer` under `key` from inside the validator
+    /// (a rule for a claim that carries an embedded token); accepts iff that parse succeeds. A panic of the
+    /// nested parse is re-raised, as it would reach the caller of the outer parse.
+    ParseEmbedded { proto: Proto, layer: Layer, key: Vec<u8> },
 }
 
 #[derive(Clone, Debug, PartialEq, Serialize, Deserialize)]
@@ -569,6 +573,11 @@ fn validator_body(slot: usize, key: &str, value: &Value) -> Result<(), PasetoCla
         Verdict::Accept => true,
         Verdict::Reject => false,
         Verdict::AcceptIfEq(v) => &v == value,
+        Verdict::ParseEmbedded { proto, layer, key: k } => match present(proto, layer, &k, value.as_str().unwrap_or(""), None, None).0 {
+            Out::Ok(_) => true,
+            Out::Err(_) => false,
+            Out::Panic(l) => panic!("nested parse inside a validator panicked at {}", l),
+        },
     };
     if ok {
         Ok(())
